@@ -98,6 +98,15 @@ def shape_sets(rng, thorough):
     sh["numerals600"] = sorted(str(i).encode() for i in range(600))
     # a text larger than 64 KB: offsets need more than 16 bits, every constructor buffer is reallocated
     sh["big80k"] = rnd_set(rng, 5200, 4, 24, b"", b"abcdefghijklmnop")
+    # word boundaries of the bitmaps: a single string of 29 bytes gives an XBW of exactly 32 nodes and an FM-index text of 32
+    # symbols (the neighbours 28 / 30 sit one bit either side); two 30-byte strings give 64 nodes
+    for L in (28, 29, 30):
+        sh["line%d" % L] = [b"k" * L]
+    sh["pair60"] = [b"a" * 30, b"b" * 30]
+    # element counts at the word boundaries of per-element bitmaps (DAC levels, hash occupancy, bucket tables)
+    two = sorted(bytes([a, b]) for a in b"abcdefghi" for b in b"abcdefgh")
+    for n in (31, 32, 33, 63, 64, 65):
+        sh["count%d" % n] = two[:n]
     if thorough:
         sh["rand200"] = rnd_set(rng, 200, 1, 25)
         sh["long400"] = rnd_set(rng, 15, 300, 400, b"", b"xyz")
@@ -165,9 +174,11 @@ def pfc_capacity_witness(R=65536,bucket=2):
 def absent_queries(S, rng, limit=None):
     mem = set(S)
     out = []
+    seen = set()
 
     def add(q):
-        if q and q not in mem and all(2 <= c <= 254 for c in q) and q not in out:
+        if q and q not in mem and all(2 <= c <= 254 for c in q) and q not in seen:
+            seen.add(q)
             out.append(q)
     used = set(b for s in S for b in s)
     absent_bytes = [b for b in (0x02, 0xFE, 0x7A, 0x03) if b not in used]
@@ -202,9 +213,11 @@ def bad_ids(n):
 
 def prefix_patterns(S, rng, limit=None):
     out = []
+    seen = set()
 
     def add(q):
-        if q and all(2 <= c <= 254 for c in q) and q not in out:
+        if q and all(2 <= c <= 254 for c in q) and q not in seen:
+            seen.add(q)
             out.append(q)
     for s in S:
         for k in range(1, len(s) + 1):
@@ -225,9 +238,11 @@ def prefix_patterns(S, rng, limit=None):
 
 def substr_patterns(S, rng, limit=None):
     out = []
+    seen = set()
 
     def add(q):
-        if q and all(2 <= c <= 254 for c in q) and q not in out:
+        if q and all(2 <= c <= 254 for c in q) and q not in seen:
+            seen.add(q)
             out.append(q)
     for s in S:
         add(s)
@@ -295,10 +310,12 @@ def sec_prefix(h, S, its, rng, limit=None, ids=True, strs=True):
     return out
 
 
-def sec_substr(h, S, its, rng, limit=None):
+def sec_substr(h, S, its, rng, limit=None, minlen=1):
     out = []
     cap = len(S) + 2
     for p in substr_patterns(S, rng, limit):
+        if len(p) < minlen:
+            continue
         it = its.new()
         out += ["LS %d %d %s" % (h, it, hx(p)), "ID %d %d" % (it, cap), "CI %d" % it]
         it = its.new()
